@@ -12,7 +12,7 @@
  *
  *   L <nvars> <begin_0> ... <begin_{n-1}> <recsize>          layout the script was generated for (checked)
  *   CASE <idx> <nranks> <abuf_bytes>
- *   P <rank> <h> <put|get|bput> <var> <a|s|m|n> <zero> <nsubs> <start0> <erange> <mt> <bl> <imap> <nreq> {start.. count..}* [stride..]
+ *   P <rank> <h> <put|get|bput> <var> <a|s|m|n> <zero> <nsubs> <start0> <erange> <maxrec> <mt> <bl> <imap> <nreq> {start.. count..}* [stride..]
  *   W <rank> <c|i> <num> <hasst> <expn> <ntok> <tok>* <nexp> <h>*
  *   X <rank> <num> <hasst> <expn> <ntok> <tok>*
  *   B <rank> / E <rank>        begin/end independent data mode on file A
@@ -30,6 +30,7 @@
 #define MAXH 128
 #define MAXSUB 8
 #define GUARD 32
+#define SLACK 4096   /* readable zero bytes behind the rear guard (a known over-read must not crash the harness) */
 #define NVARS 8
 #define NREC0 3
 
@@ -95,7 +96,11 @@ static void qdump1(const char *nm, int nlead, int nreq, int maxid, NC_lead_req *
         fprintf(out, "%s%d.%d.%d.%d", i ? " " : "", ll[i].id, ll[i].nonlead_off, ll[i].nonlead_num,
                 (ll[i].flag & NC_REQ_TO_FREE) ? 1 : 0);
     fprintf(out, "]{");
-    for (i = 0; i < nreq && l != NULL; i++) fprintf(out, "%s%d", i ? " " : "", l[i].lead_off);
+    for (i = 0; i < nreq && l != NULL; i++) {
+        long long xo = -1;
+        if (l[i].lead_off >= 0 && l[i].lead_off < nlead) xo = (long long)((char *)l[i].xbuf - (char *)ll[l[i].lead_off].xbuf);
+        fprintf(out, "%s%d:%lld:%lld", i ? " " : "", l[i].lead_off, (long long)l[i].nelems, xo);
+    }
     fprintf(out, "}");
 }
 
@@ -108,9 +113,46 @@ static void qdump(int ncid)
     qdump1("P", ncp->numLeadPutReqs, ncp->numPutReqs, ncp->maxPutReqID, ncp->put_lead_list, ncp->put_list);
     fprintf(out, " ");
     qdump1("G", ncp->numLeadGetReqs, ncp->numGetReqs, ncp->maxGetReqID, ncp->get_lead_list, ncp->get_list);
+    if (nprocs == 1) fprintf(out, " R:%lld", (long long)ncp->numrecs);
+    else fprintf(out, " R:*");   /* with several ranks numrecs depends on the other ranks' requests */
 }
 
 static int ncA = -1, ncB = -1, vidA[NVARS], vidB[NVARS], caseidx, dead;
+
+/* elements whose file content is defined: the background records and everything a put of this case
+   targets.  Unwritten parts of records added later are undefined in a netCDF file (MPI-IO data sieving
+   may leave anything there) and are not compared. */
+#define MAXRECS 16
+#define MAXVSZ 64
+static unsigned char defmask[NVARS][MAXRECS * MAXVSZ];
+
+static size_t recelems(int v)
+{
+    size_t n = 1; int k;
+    for (k = visrec[v] ? 1 : 0; k < vnd[v]; k++) n *= (size_t)dimlen[vdims[v][k]];
+    return n;
+}
+
+static void mark_defined(Req *r)
+{
+    int nd = vnd[r->var], i;
+    for (i = 0; i < r->nreq; i++) {
+        MPI_Offset idx[4] = {0, 0, 0, 0}; int d, done = 0;
+        for (d = 0; d < nd; d++) if (r->ct[i][d] <= 0) done = 1;
+        while (!done) {
+            size_t flat = 0;
+            for (d = 0; d < nd; d++) {
+                MPI_Offset pos = r->st[i][d] + idx[d] * (r->has_stride ? r->stride[d] : 1);
+                MPI_Offset len = (d == 0 && visrec[r->var]) ? MAXRECS : dimlen[vdims[r->var][d]];
+                flat = flat * (size_t)len + (size_t)pos;
+            }
+            if (flat < sizeof defmask[0]) defmask[r->var][flat] = 1;
+            for (d = nd - 1; d >= 0; d--) { if (++idx[d] < r->ct[i][d]) break; idx[d] = 0; }
+            if (d < 0) done = 1;
+        }
+        if (nd == 0) break;
+    }
+}
 
 static int define_schema(const char *path, int *ncidp, int *vid)
 {
@@ -238,6 +280,7 @@ static void oracle_complete(int nexp, int *exp)
             if ((pass == 0) != (r->kind != 1)) continue;
             if (r->kind != 1) {
                 err = blocking(r, r->orig);
+                mark_defined(r);
                 if (err != NC_NOERR) fprintf(out, "D blocking-put h%d err=%d\n", exp[k], err);
                 /* the user buffer of a (non-buffered) put must be bit-identical after the wait */
                 if (r->kind == 0 && memcmp(r->buf, r->orig, r->bytes) != 0)
@@ -286,45 +329,45 @@ static void close_case(void)
     for (i = 0; i < MAXH; i++) {
         Req *r = &R[i];
         if (!r->used) continue;
-        if (!guards_ok(r)) fprintf(out, "D guard-overwritten h%d\n", i);
+        if (!guards_ok(r)) fprintf(out, "DE guard-overwritten h%d\n", i);
         if (r->kind == 1 && r->posted && r->state != 1 && !dead) {
             size_t k; int bad = 0;
             for (k = 0; k < r->bytes; k++) if (r->buf[k] != 0xEE) bad = 1;
-            if (bad) fprintf(out, "D uncompleted-get-modified h%d\n", i);
+            if (bad) fprintf(out, "DE uncompleted-get-modified h%d\n", i);
         }
         free_req(r);
     }
     {   PNC *p; NC *ncp; PNC_check_id(ncA, &p); ncp = (NC *)p->ncp;
-        if (ncp->abuf != NULL) { err = ncmpi_buffer_detach(ncA); if (err) fprintf(out, "D detach err=%d\n", err); } }
+        if (ncp->abuf != NULL) { err = ncmpi_buffer_detach(ncA); if (err) fprintf(out, "DE detach err=%d\n", err); } }
     ncmpi_end_indep_data(ncA); /* no-op error when already in collective mode */
-    err = ncmpi_close(ncA); if (err) fprintf(out, "D closeA err=%d\n", err);
+    err = ncmpi_close(ncA); if (err) fprintf(out, "DE closeA err=%d\n", err);
     ncmpi_end_indep_data(ncB);
-    err = ncmpi_close(ncB); if (err) fprintf(out, "D closeB err=%d\n", err);
+    err = ncmpi_close(ncB); if (err) fprintf(out, "DE closeB err=%d\n", err);
     ncA = ncB = -1;
-    MPI_Barrier(MPI_COMM_WORLD);
+    MPI_Allreduce(MPI_IN_PLACE, defmask, (int)sizeof defmask, MPI_UNSIGNED_CHAR, MPI_MAX, MPI_COMM_WORLD);
     if (rank == 0) { /* compare the two files variable by variable */
         char pa[600], pb[600]; int a, b, v, k, same = 1;
         MPI_Offset na = 0, nb = 0; int da, db;
         snprintf(pa, sizeof pa, "%s/A%d.nc", dir, caseidx);
         snprintf(pb, sizeof pb, "%s/B%d.nc", dir, caseidx);
         if (ncmpi_open(MPI_COMM_SELF, pa, NC_NOWRITE, MPI_INFO_NULL, &a) || ncmpi_open(MPI_COMM_SELF, pb, NC_NOWRITE, MPI_INFO_NULL, &b)) {
-            fprintf(out, "D reopen-failed\n");
+            fprintf(out, "DE reopen-failed\n");
         } else {
             ncmpi_inq_unlimdim(a, &da); ncmpi_inq_unlimdim(b, &db);
             ncmpi_inq_dimlen(a, da, &na); ncmpi_inq_dimlen(b, db, &nb);
-            if (na != nb) { fprintf(out, "D numrecs-differ A=%lld B=%lld\n", (long long)na, (long long)nb); same = 0; }
+            if (na != nb) { fprintf(out, "DE numrecs-differ A=%lld B=%lld\n", (long long)na, (long long)nb); same = 0; }
             for (v = 0; v < NVARS && na == nb; v++) {
                 MPI_Offset n = 1; double *x, *y;
                 for (k = 0; k < vnd[v]; k++) n *= (k == 0 && visrec[v]) ? na : dimlen[vdims[v][k]];
                 if (n == 0) continue;
                 x = (double *)calloc((size_t)n, 8); y = (double *)calloc((size_t)n, 8);
                 ncmpi_get_var_double_all(a, v, x); ncmpi_get_var_double_all(b, v, y);
-                for (k = 0; k < n; k++) if (memcmp(&x[k], &y[k], 8)) {
-                    fprintf(out, "D file-differs var=%d elem=%d A=%g B=%g\n", v, k, x[k], y[k]); same = 0; break; }
+                for (k = 0; k < n; k++) if (defmask[v][k] && memcmp(&x[k], &y[k], 8)) {
+                    fprintf(out, "DE file-differs var=%d elem=%d A=%g B=%g\n", v, k, x[k], y[k]); same = 0; break; }
                 free(x); free(y);
             }
             ncmpi_close(a); ncmpi_close(b);
-            fprintf(out, "D file-compare %s\n", same ? "equal" : "DIFFERENT");
+            fprintf(out, "DE file-compare %s\n", same ? "equal" : "DIFFERENT");
         }
         unlink(pa); unlink(pb);
     }
@@ -344,6 +387,7 @@ int main(int argc, char **argv)
     snprintf(path, sizeof path, "%s.%d", argv[2], rank);
     out = fopen(path, "w");
     snprintf(dir, sizeof dir, "%s", argv[3]);
+    if (out) setvbuf(out, NULL, _IOLBF, 0);
     if (!in || !out) MPI_Abort(MPI_COMM_WORLD, 3);
 
     while (fgets(line, sizeof line, in)) {
@@ -359,6 +403,9 @@ int main(int argc, char **argv)
             caseidx = atoi(tok[1]); ab = atoll(tok[3]); dead = 0;
             snprintf(pa, sizeof pa, "%s/A%d.nc", dir, caseidx);
             snprintf(pb, sizeof pb, "%s/B%d.nc", dir, caseidx);
+            {   int v; size_t k;
+                memset(defmask, 0, sizeof defmask);
+                for (v = 0; v < NVARS; v++) for (k = 0; k < (visrec[v] ? NREC0 : 1) * recelems(v); k++) defmask[v][k] = 1; }
             err = define_schema(pa, &ncA, vidA); if (err) { fprintf(out, "D schemaA err=%d\n", err); }
             err = define_schema(pb, &ncB, vidB); if (err) { fprintf(out, "D schemaB err=%d\n", err); }
             ncmpi_begin_indep_data(ncB);
@@ -382,8 +429,8 @@ int main(int argc, char **argv)
             r->used = 1;
             r->kind = !strcmp(tok[3], "put") ? 0 : !strcmp(tok[3], "get") ? 1 : 2;
             r->var = atoi(tok[4]); r->api = tok[5][0]; r->zero = atoi(tok[6]);
-            r->erange = atoi(tok[9]); r->mt = atoi(tok[10]); r->bl = atoi(tok[11]); r->imap = atoi(tok[12]);
-            r->nreq = atoi(tok[13]); p = 14;
+            r->erange = atoi(tok[9]); r->mt = atoi(tok[11]); r->bl = atoi(tok[12]); r->imap = atoi(tok[13]);
+            r->nreq = atoi(tok[14]); p = 15;
             nd = vnd[r->var];
             r->nelems = 0;
             for (i = 0; i < r->nreq; i++) {
@@ -399,7 +446,7 @@ int main(int argc, char **argv)
             r->memelems = (r->bl == 2) ? 2 * r->nelems : r->nelems;
             if (r->memelems == 0) r->memelems = 1;
             r->bytes = r->memelems * r->esize;
-            r->mem = (unsigned char *)malloc(r->bytes + 2 * GUARD);
+            r->mem = (unsigned char *)calloc(r->bytes + 2 * GUARD + SLACK, 1);
             memset(r->mem, 0xA5, r->bytes + 2 * GUARD);
             r->buf = r->mem + GUARD;
             r->orig = (unsigned char *)malloc(r->bytes);
